@@ -58,7 +58,7 @@ func (e *Eval) builtin(fr *Frame, cc *ssa.CallCommon, b *ssa.Builtin, args []Val
 		c.Set(st, "$closed", sto(c.Get(st, "$closed"), args[0].T, "true"))
 		return ret()
 	case "recover":
-		if !panicking {
+		if !panicking && !fr.panicking {
 			return ret(Val{T: "(mk-iface 0 0)"})
 		}
 		c.DeclComp("$recovered", "Bool")
